@@ -322,7 +322,7 @@ def gen_bwe(ch, spec):
     nseg = ch.choice("wl", [1, 2, 4, 6, 10])
     ops = []
     for _ in range(nseg):
-        kind = ch.weighted("wl", [5, 2, 1, 1, 1, 1])
+        kind = ch.weighted("wl", [5, 2, 1, 1, 1, 1, 2])
         seg = {"dur": ch.choice("wl", [0.3, 1.0, 2.5, 5.0, 12.0]),
                "pps": ch.choice("wl", [10, 50, 200, 500, 1000, 3000]),
                "size": ch.choice("wl", ["zero", "tiny", "mixed", "mtu", "mixed", "mtu"]),
@@ -339,6 +339,10 @@ def gen_bwe(ch, spec):
             # payload-less packets squeezed through a thin link: over-use while the measurement is 0
             seg.update(size="zero", cap=ch.choice("wl", [32, 100]), pps=ch.choice("wl", [500, 1000]),
                        dur=ch.choice("wl", [1.0, 2.5, 5.0]))
+        elif kind == 6:
+            # a lone packet (or a handful) between idle periods longer than the window
+            seg.update(lone=ch.choice("wl", [1, 1, 2, 3]), idle=ch.choice("wl", [1.001, 1.5, 2.0, 2.5, 4.0]),
+                       after=ch.choice("wl", [0.0, 1.2, 2.0, 3.5]))
         if seg["dur"] * seg["pps"] > 6000:
             seg["dur"] = round(6000.0 / seg["pps"], 3)
         ops.append(seg)
@@ -370,7 +374,8 @@ class BweWorld(BaseWorld):
 
         def tap(usage, throughput, now_ms, _orig=orig):
             out = _orig(usage, throughput, now_ms)
-            self.calls.append((usage, throughput, now_ms, out))
+            # what the detector says *now* (after this packet), not what the caller chose to pass on
+            self.calls.append((self.est.detector.state(), throughput, now_ms, out))
             return out
 
         self.est.rate_control.update = tap
@@ -381,6 +386,15 @@ class BweWorld(BaseWorld):
         for seg in self.ops:
             if seg.get("idle"):
                 await asyncio.sleep(seg["idle"])
+            if seg.get("lone"):
+                for _ in range(seg["lone"]):
+                    self._send(self._size(seg["size"], n), cfg["ssrcs"][n % len(cfg["ssrcs"])], None)
+                    n += 1
+                    await asyncio.sleep(0.002)
+                self.probes["lone_packets_between_idle_periods"] += 1
+                if seg.get("after"):
+                    await asyncio.sleep(seg["after"])
+                continue
             t_end = self.loop.time() + seg["dur"]
             gap = 1.0 / seg["pps"]
             burst = seg.get("burst", 0)
